@@ -154,14 +154,8 @@ func (v *Vue) evaluateNodeAsElement(ctx VueContext, node *html.Node, depth int) 
 			return nil, err
 		}
 
-		for _, n := range loopNodes {
-			if err := v.evalVHtml(ctx, n); err != nil {
-				return nil, err
-			}
-			if _, err := v.evalAttributes(ctx, n); err != nil {
-				return nil, err
-			}
-		}
+		// loopNodes are fully evaluated inside each iteration's scope; they are data now
+		// and must not be evaluated a second time.
 
 		result = append(result, loopNodes...)
 		return result, nil
